@@ -173,7 +173,9 @@ func compileMapKey(typ *runtime.Type, structName, fieldName string, structTypeTo
 		case *stringDecoder, *interfaceDecoder:
 			return dec, nil
 		case *boolDecoder, *intDecoder, *uintDecoder, *numberDecoder:
-			return newWrappedStringDecoder(typ, dec, structName, fieldName), nil
+			keyDec := newWrappedStringDecoder(typ, dec, structName, fieldName)
+			keyDec.isMapKey = true
+			return keyDec, nil
 		case *ptrDecoder:
 			dec = t.dec
 		default:
